@@ -193,6 +193,21 @@ def regex_to_re(pattern_text, flags=re.U):
     return na, r
 
 
+def regex_full_to_re(pattern_text, flags=re.U):
+    """a pattern of the shape ^...$ → Re for the inside (to be used as a full match)"""
+    tree = P.parse(pattern_text, flags)
+    items = list(tree)
+    if not (items and items[0][0] is K.AT and items[0][1] is K.AT_BEGINNING
+            and items[-1][0] is K.AT and items[-1][1] is K.AT_END):
+        raise Unsupported('expected a ^...$ pattern')
+    na, r = tr(items[1:-1], top=True)
+    if na is not None:
+        raise Unsupported('look-behind')
+    if tree.state.flags & re.I:
+        r = case_close(r)
+    return r
+
+
 # ---------------------------------------------------------------- emission with sharing
 
 class Emitter:
@@ -391,7 +406,41 @@ def gen_names():
     return '\n'.join(out) + '\n'
 
 
-GENERATORS = {'Productions.lean': gen_productions, 'Names.lean': gen_names}
+def gen_colors():
+    """named colours, the zero-length unit list of do_css_Value, the hex-colour regex"""
+    import ast
+    import inspect
+    import css_parser  # noqa: F401
+    from css_parser.css.value import ColorValue
+    from css_parser import serialize, prodparser
+    rows = []
+    for n, (r, g, b, a) in sorted(ColorValue.COLORS.items()):
+        rows.append((n, int(r), int(g), int(b), int(round(a * 1000))))
+    units = None
+    for node in ast.walk(ast.parse(inspect.getsource(serialize))):
+        if (isinstance(node, ast.Compare) and isinstance(node.left, ast.Attribute) and node.left.attr == 'dimension'
+                and isinstance(node.ops[0], ast.In) and isinstance(node.comparators[0], ast.Tuple)):
+            units = [e.value for e in node.comparators[0].elts]
+    if units is None:
+        raise Unsupported('zero-length unit tuple not found in serialize.py')
+    em = Emitter('c')
+    hx_s = em.emit(regex_full_to_re(prodparser.PreDef.reHexcolor.pattern, prodparser.PreDef.reHexcolor.flags))
+    out = ['-- GENERATED by harness/gen_tables.py from /repo — do not edit',
+           'import CssVerif.Model.Number', 'namespace CssVerif.Gen', 'open CssVerif CssVerif.Color', '']
+    for name, sdef in em.defs:
+        out.append('def %s : Re := %s' % (name, sdef))
+    out.append('def colorRows : List ColorRow := [')
+    out.append(',\n'.join('  { name := %s, r := %d, g := %d, b := %d, alpha1000 := %d }' % (lean_text(n), r, g, b, a)
+                          for n, r, g, b, a in rows))
+    out.append(']')
+    out.append('def zeroUnits : List Text := [%s]' % ', '.join(lean_text(u) for u in units))
+    out.append('/-- full-match pattern of a hex colour HASH value -/')
+    out.append('def hexColorRe : Re := %s' % hx_s)
+    out.append('end CssVerif.Gen')
+    return '\n'.join(out) + '\n'
+
+
+GENERATORS = {'Productions.lean': gen_productions, 'Names.lean': gen_names, 'Colors.lean': gen_colors}
 
 
 def main():
